@@ -89,6 +89,16 @@ def make_models():
     return M
 
 
+def on_path_end(it, exc):
+    """a panic or an unbounded loop inside model registration / the deadlock-report mapping is a violation, not a dropped path"""
+    from vlib.mirse.interp import LoopBound, Violation
+    kind = "C06:operation-returns" if isinstance(exc, LoopBound) else "C06:no-panic"
+    vals = it.model_values() or {}
+    v = Violation(kind, vals, list(it.trace), f"{it.env.get('witness')}: {exc}")
+    v.witness = it.env.get("witness")
+    it.violations.append(v)
+
+
 def scenario_registration(it, params):
     """SimInit::add_model / simulation::add_model / BuildContext::add_submodel on a model hierarchy: every model of the bench
     (sub-models included) must get a mailbox observer under its fully qualified name."""
